@@ -3271,6 +3271,13 @@ class Interp:
             if len(outs) == 1:
                 return outs[0]
             return Alt(outs) if outs else self.unknown("dict-lookup", node)
+        if isinstance(base, ObjV) and getattr(base, "record", None) and base.record[0] == "namedtuple" and len(idx) == 1 \
+                and idx[0][0] == "int":
+            # a NamedTuple record read by position: axis[0] is its first field
+            fields = base.record[1]
+            k_ = idx[0][1]
+            if -len(fields) <= k_ < len(fields):
+                return base.attrs[fields[k_]]
         if isinstance(base, DictV):
             k = idx[0]
             km = getattr(base, "keymap", None)
